@@ -128,6 +128,7 @@ func Load(repo, goos, goarch string) (*Program, error) {
 		p.SSAPkg[sp.Pkg.Path()] = sp
 	}
 	p.NumFuncs = len(ssautil.AllFunctions(prog))
+	InitFieldCanon(p)
 	return p, nil
 }
 
